@@ -36,6 +36,11 @@ CONSTANTS
   Cap,        \* [Kinds \cup LKinds -> Nat]
   Mode,       \* "off" | "shadow" | "enforce"
   Lazy,       \* TRUE: the ledger is created on first use behind a pending pin
+  OpSet,      \* SUBSET {"debit", "local", "retain", "finish"}: calls the processes may make
+  Atomic,     \* TRUE: a call starts only when no other call is in progress (sequential call orders
+              \*       for the API replay); FALSE: calls overlap freely
+  GtBug,      \* FALSE in the code.  TRUE models `used > limit` in the debit loop (negative config:
+              \*       AcceptedNeverExceedsCap must then fail -- the invariant is not vacuous)
   MaxOps,     \* operations per process
   MaxHeld     \* retained tokens a process may hold at once
 
@@ -51,7 +56,8 @@ VARIABLES
   finished,   \* BOOLEAN
   published,  \* Nat: number of publications (metrics observed)
   pc,         \* [Procs -> control point]
-  kind, latch, used,   \* per process: operand of the running call, loaded counter / refs value
+  kind, latch, used,   \* per process: operands of the running call, loaded counter / refs value
+  opn,        \* [Procs -> name of the call in progress]
   ops,        \* [Procs -> Nat] operations started
   held,       \* [Procs -> Nat] retained tokens not yet released
   rootTok,    \* 0/1: the root owner's reference is still counted in refs
@@ -62,13 +68,13 @@ VARIABLES
   reqMarks,   \* Nat: required (latching) rejections that reached markExhausted
   lastRes     \* [Procs -> result of the last completed call]
 
-vars == <<rootState, counter, exhausted, first, refs, finished, published, pc, kind, latch, used, ops, held,
+vars == <<rootState, counter, exhausted, first, refs, finished, published, pc, kind, latch, used, opn, ops, held,
           rootTok, accepted, started, limitErrs, reqMarks, lastRes>>
 ledgerVars == <<counter, exhausted, first, refs, finished, published>>
 ghostVars == <<accepted, started, limitErrs, reqMarks>>
 
 Results == {"none", "nil", "limit", "canceled", "retained", "refused", "released", "finished", "noop"}
-PCs == {"idle", "sadd", "load", "cas", "markOr", "markFirst", "rload", "rcas", "relDec", "relFin", "publish"}
+PCs == {"idle", "enter", "sadd", "load", "cas", "markOr", "markFirst", "rload", "rcas", "relDec", "relFin", "publish"}
 
 Init ==
   /\ rootState = IF Lazy THEN "pending" ELSE (IF Enabled THEN "live" ELSE "pending")
@@ -82,6 +88,7 @@ Init ==
   /\ kind = [p \in Procs |-> CHOOSE k \in Kinds : TRUE]
   /\ latch = [p \in Procs |-> FALSE]
   /\ used = [p \in Procs |-> 0]
+  /\ opn = [p \in Procs |-> "none"]
   /\ ops = [p \in Procs |-> 0]
   /\ held = [p \in Procs |-> 0]
   /\ rootTok = IF ~Lazy /\ Enabled THEN 1 ELSE 0
@@ -99,6 +106,7 @@ Ret(p, res) ==
 
 Begin(p) ==
   /\ pc[p] = "idle"
+  /\ Atomic => \A q \in Procs : pc[q] = "idle"
   /\ ops[p] < MaxOps
   /\ ops' = [ops EXCEPT ![p] = @ + 1]
 
@@ -110,11 +118,27 @@ Materialize ==
     ELSE UNCHANGED <<rootState, refs, rootTok>>
 
 (* ---- DebitRecursionWork / Debit / DebitBestEffort ------------------------ *)
-DebitStart(p, k, lt) ==
+(* A call is invoked (Start: operands fixed, nothing shared touched yet) and
+   then enters the ledger (Enter: the first step that reads / changes shared
+   state).  Keeping them apart matters for concurrent histories: another
+   goroutine may run between the invocation and the first shared step. *)
+Invoke(p, name) ==
   /\ Begin(p)
+  /\ pc' = [pc EXCEPT ![p] = "enter"]
+  /\ opn' = [opn EXCEPT ![p] = name]
+
+DebitStart(p, k, lt) ==
+  /\ "debit" \in OpSet
   /\ k \in Kinds
+  /\ Invoke(p, "debit")
   /\ kind' = [kind EXCEPT ![p] = k]
   /\ latch' = [latch EXCEPT ![p] = lt]
+  /\ UNCHANGED <<rootState, ledgerVars, used, held, rootTok, ghostVars, lastRes>>
+
+(* recursionWorkForUse + controlError + mode switch *)
+DebitEnter(p) ==
+  LET k == kind[p] IN
+  /\ pc[p] = "enter" /\ opn[p] = "debit"
   /\ IF rootState = "closed"
        THEN /\ Ret(p, "canceled")            \* control ledger: context.Canceled
             /\ UNCHANGED <<rootState, refs, rootTok, started>>
@@ -125,7 +149,8 @@ DebitStart(p, k, lt) ==
             /\ started' = [started EXCEPT ![k] = @ + 1]
             /\ pc' = [pc EXCEPT ![p] = IF Mode = "shadow" THEN "sadd" ELSE "load"]
             /\ UNCHANGED lastRes
-  /\ UNCHANGED <<counter, exhausted, first, finished, published, used, held, accepted, limitErrs, reqMarks>>
+  /\ UNCHANGED <<counter, exhausted, first, finished, published, kind, latch, used, opn, ops, held,
+                 accepted, limitErrs, reqMarks>>
 
 (* shadow: counter.Add(1) == limit+1 -> exactly one goroutine records the crossing *)
 ShadowAdd(p) ==
@@ -138,7 +163,7 @@ ShadowAdd(p) ==
             /\ latch' = [latch EXCEPT ![p] = FALSE]
             /\ UNCHANGED lastRes
        ELSE Ret(p, "nil") /\ UNCHANGED latch
-  /\ UNCHANGED <<rootState, exhausted, first, refs, finished, published, kind, used, ops, held, rootTok,
+  /\ UNCHANGED <<rootState, exhausted, first, refs, finished, published, kind, used, opn, ops, held, rootTok,
                  started, limitErrs, reqMarks>>
 
 (* enforce: used := counter.Load() *)
@@ -146,12 +171,12 @@ Load(p) ==
   LET k == kind[p] IN
   /\ pc[p] = "load"
   /\ used' = [used EXCEPT ![p] = counter[k]]
-  /\ IF counter[k] >= Cap[k]
+  /\ IF (IF GtBug THEN counter[k] > Cap[k] ELSE counter[k] >= Cap[k])
        THEN /\ pc' = [pc EXCEPT ![p] = "markOr"]
             /\ reqMarks' = IF latch[p] THEN reqMarks + 1 ELSE reqMarks
        ELSE /\ pc' = [pc EXCEPT ![p] = "cas"]
             /\ UNCHANGED reqMarks
-  /\ UNCHANGED <<rootState, ledgerVars, kind, latch, ops, held, rootTok, accepted, started, limitErrs, lastRes>>
+  /\ UNCHANGED <<rootState, ledgerVars, kind, latch, opn, ops, held, rootTok, accepted, started, limitErrs, lastRes>>
 
 (* enforce: counter.CompareAndSwap(used, used+1) *)
 CAS(p) ==
@@ -163,7 +188,7 @@ CAS(p) ==
             /\ Ret(p, "nil")
        ELSE /\ pc' = [pc EXCEPT ![p] = "load"]
             /\ UNCHANGED <<counter, accepted, lastRes>>
-  /\ UNCHANGED <<rootState, exhausted, first, refs, finished, published, kind, latch, used, ops, held, rootTok,
+  /\ UNCHANGED <<rootState, exhausted, first, refs, finished, published, kind, latch, used, opn, ops, held, rootTok,
                  started, limitErrs, reqMarks>>
 
 (* markExhausted: exhausted.Or(bit) ... *)
@@ -175,7 +200,7 @@ MarkOr(p) ==
        ELSE IF Mode = "shadow"
        THEN Ret(p, "nil") /\ UNCHANGED limitErrs
        ELSE Ret(p, "limit") /\ limitErrs' = limitErrs + 1
-  /\ UNCHANGED <<rootState, counter, first, refs, finished, published, kind, latch, used, ops, held, rootTok,
+  /\ UNCHANGED <<rootState, counter, first, refs, finished, published, kind, latch, used, opn, ops, held, rootTok,
                  accepted, started, reqMarks>>
 
 (* ... first.CompareAndSwap(0, kind+1) *)
@@ -184,45 +209,61 @@ MarkFirst(p) ==
   /\ first' = IF first = "none" THEN kind[p] ELSE first
   /\ Ret(p, "limit")
   /\ limitErrs' = limitErrs + 1
-  /\ UNCHANGED <<rootState, counter, exhausted, refs, finished, published, kind, latch, used, ops, held, rootTok,
+  /\ UNCHANGED <<rootState, counter, exhausted, refs, finished, published, kind, latch, used, opn, ops, held, rootTok,
                  accepted, started, reqMarks>>
 
 (* ---- CheckLocal(kind, used) / Reject(kind): local limits ---------------------- *)
 (* u = items already examined; Reject is CheckLocal at the limit without the `used == limit` filter *)
 CheckLocal(p, k, u, lt) ==
-  /\ Begin(p)
+  /\ "local" \in OpSet
   /\ k \in LKinds
   /\ u \in 0..(Cap[k] + 1)
+  /\ Invoke(p, "local")
   /\ kind' = [kind EXCEPT ![p] = k]
+  /\ latch' = [latch EXCEPT ![p] = lt]
+  /\ used' = [used EXCEPT ![p] = u]
+  /\ UNCHANGED <<rootState, ledgerVars, held, rootTok, ghostVars, lastRes>>
+
+LocalEnter(p) ==
+  LET k == kind[p]  u == used[p]  lt == latch[p] IN
+  /\ pc[p] = "enter" /\ opn[p] = "local"
   /\ IF rootState = "closed"
-       THEN Ret(p, "canceled") /\ UNCHANGED <<latch, reqMarks>>
-       ELSE IF ~Enabled \/ rootState = "pending" \/ u < Cap[k]
-       THEN Ret(p, "nil") /\ UNCHANGED <<latch, reqMarks>>
-       ELSE IF Mode = "shadow"
-       THEN IF u = Cap[k]
-              THEN /\ pc' = [pc EXCEPT ![p] = "markOr"] /\ latch' = [latch EXCEPT ![p] = FALSE]
-                   /\ UNCHANGED <<lastRes, reqMarks>>
-              ELSE Ret(p, "nil") /\ UNCHANGED <<latch, reqMarks>>
-       ELSE /\ pc' = [pc EXCEPT ![p] = "markOr"]
-            /\ latch' = [latch EXCEPT ![p] = lt]
-            /\ reqMarks' = IF lt THEN reqMarks + 1 ELSE reqMarks
-            /\ UNCHANGED lastRes
-  /\ UNCHANGED <<rootState, ledgerVars, used, held, rootTok, accepted, started, limitErrs>>
+       THEN Ret(p, "canceled") /\ UNCHANGED <<latch, reqMarks, rootState, refs, rootTok>>
+       ELSE IF ~Enabled
+       THEN Ret(p, "nil") /\ UNCHANGED <<latch, reqMarks, rootState, refs, rootTok>>
+       ELSE /\ Materialize                   \* recursionWorkForUse: a local check is a first use too
+            /\ IF u < Cap[k]
+                 THEN Ret(p, "nil") /\ UNCHANGED <<latch, reqMarks>>
+                 ELSE IF Mode = "shadow"
+                 THEN IF u = Cap[k]
+                        THEN /\ pc' = [pc EXCEPT ![p] = "markOr"] /\ latch' = [latch EXCEPT ![p] = FALSE]
+                             /\ UNCHANGED <<lastRes, reqMarks>>
+                        ELSE Ret(p, "nil") /\ UNCHANGED <<latch, reqMarks>>
+                 ELSE /\ pc' = [pc EXCEPT ![p] = "markOr"]
+                      /\ reqMarks' = IF lt THEN reqMarks + 1 ELSE reqMarks
+                      /\ UNCHANGED <<lastRes, latch>>
+  /\ UNCHANGED <<counter, exhausted, first, finished, published, kind, used, opn, ops, held, accepted, started, limitErrs>>
 
 (* ---- Retain / release -------------------------------------------------------- *)
 RetainStart(p) ==
-  /\ Begin(p)
+  /\ "retain" \in OpSet
   /\ held[p] < MaxHeld
+  /\ Invoke(p, "retain")
+  /\ UNCHANGED <<rootState, ledgerVars, kind, latch, used, held, rootTok, ghostVars, lastRes>>
+
+(* RecursionWorkFrom(ctx) + `!l.isLive() || !l.policy.Enabled()` *)
+RetainEnter(p) ==
+  /\ pc[p] = "enter" /\ opn[p] = "retain"
   /\ IF Live /\ Enabled
        THEN pc' = [pc EXCEPT ![p] = "rload"] /\ UNCHANGED lastRes
        ELSE Ret(p, "refused")
-  /\ UNCHANGED <<rootState, ledgerVars, kind, latch, used, held, rootTok, ghostVars>>
+  /\ UNCHANGED <<rootState, ledgerVars, kind, latch, used, opn, ops, held, rootTok, ghostVars>>
 
 RetainLoad(p) ==
   /\ pc[p] = "rload"
   /\ used' = [used EXCEPT ![p] = refs]
   /\ IF refs = 0 THEN Ret(p, "refused") ELSE pc' = [pc EXCEPT ![p] = "rcas"] /\ UNCHANGED lastRes
-  /\ UNCHANGED <<rootState, ledgerVars, kind, latch, ops, held, rootTok, ghostVars>>
+  /\ UNCHANGED <<rootState, ledgerVars, kind, latch, opn, ops, held, rootTok, ghostVars>>
 
 RetainCAS(p) ==
   /\ pc[p] = "rcas"
@@ -232,7 +273,7 @@ RetainCAS(p) ==
             /\ Ret(p, "retained")
        ELSE /\ pc' = [pc EXCEPT ![p] = "rload"]
             /\ UNCHANGED <<refs, held, lastRes>>
-  /\ UNCHANGED <<rootState, counter, exhausted, first, finished, published, kind, latch, used, ops, rootTok, ghostVars>>
+  /\ UNCHANGED <<rootState, counter, exhausted, first, finished, published, kind, latch, used, opn, ops, rootTok, ghostVars>>
 
 (* the once-guarded release function of a retained token *)
 ReleaseStart(p) ==
@@ -240,6 +281,7 @@ ReleaseStart(p) ==
   /\ held[p] > 0
   /\ held' = [held EXCEPT ![p] = @ - 1]
   /\ pc' = [pc EXCEPT ![p] = "relDec"]
+  /\ opn' = [opn EXCEPT ![p] = "release"]
   /\ used' = [used EXCEPT ![p] = 0]       \* 0: a retained token, 1: the root's reference
   /\ UNCHANGED <<rootState, ledgerVars, kind, latch, rootTok, ghostVars, lastRes>>
 
@@ -251,7 +293,7 @@ ReleaseDec(p) ==
   /\ IF refs - 1 # 0
        THEN Ret(p, IF used[p] = 1 THEN "finished" ELSE "released")
        ELSE pc' = [pc EXCEPT ![p] = "relFin"] /\ UNCHANGED lastRes
-  /\ UNCHANGED <<rootState, counter, exhausted, first, finished, published, kind, latch, used, ops, held, ghostVars>>
+  /\ UNCHANGED <<rootState, counter, exhausted, first, finished, published, kind, latch, used, opn, ops, held, ghostVars>>
 
 (* finished.CompareAndSwap(false, true) *)
 ReleaseFin(p) ==
@@ -259,18 +301,23 @@ ReleaseFin(p) ==
   /\ IF finished
        THEN Ret(p, IF used[p] = 1 THEN "finished" ELSE "released") /\ UNCHANGED finished
        ELSE finished' = TRUE /\ pc' = [pc EXCEPT ![p] = "publish"] /\ UNCHANGED lastRes
-  /\ UNCHANGED <<rootState, counter, exhausted, first, refs, published, kind, latch, used, ops, held, rootTok, ghostVars>>
+  /\ UNCHANGED <<rootState, counter, exhausted, first, refs, published, kind, latch, used, opn, ops, held, rootTok, ghostVars>>
 
 (* Snapshot + metrics *)
 Publish(p) ==
   /\ pc[p] = "publish"
   /\ published' = published + 1
   /\ Ret(p, IF used[p] = 1 THEN "finished" ELSE "released")
-  /\ UNCHANGED <<rootState, counter, exhausted, first, refs, finished, kind, latch, used, ops, held, rootTok, ghostVars>>
+  /\ UNCHANGED <<rootState, counter, exhausted, first, refs, finished, kind, latch, used, opn, ops, held, rootTok, ghostVars>>
 
 (* ---- finish (the outer Chain, FinishRecursionWork) --------------------------- *)
 Finish(p) ==
-  /\ Begin(p)
+  /\ "finish" \in OpSet
+  /\ Invoke(p, "finish")
+  /\ UNCHANGED <<rootState, ledgerVars, kind, latch, used, held, rootTok, ghostVars, lastRes>>
+
+FinishEnter(p) ==
+  /\ pc[p] = "enter" /\ opn[p] = "finish"
   /\ CASE rootState = "pending" ->          \* no recursive work ran: the pin closes
             /\ rootState' = "closed"
             /\ Ret(p, "finished")
@@ -283,12 +330,13 @@ Finish(p) ==
        [] OTHER ->
             /\ Ret(p, "noop")
             /\ UNCHANGED <<rootState, used>>
-  /\ UNCHANGED <<ledgerVars, kind, latch, held, rootTok, ghostVars>>
+  /\ UNCHANGED <<ledgerVars, kind, latch, opn, ops, held, rootTok, ghostVars>>
 
 Next ==
   \E p \in Procs :
     \/ \E k \in Kinds, lt \in BOOLEAN : DebitStart(p, k, lt)
     \/ \E k \in LKinds, u \in 0..3, lt \in BOOLEAN : CheckLocal(p, k, u, lt)
+    \/ DebitEnter(p) \/ LocalEnter(p) \/ RetainEnter(p) \/ FinishEnter(p)
     \/ ShadowAdd(p) \/ Load(p) \/ CAS(p) \/ MarkOr(p) \/ MarkFirst(p)
     \/ RetainStart(p) \/ RetainLoad(p) \/ RetainCAS(p)
     \/ ReleaseStart(p) \/ ReleaseDec(p) \/ ReleaseFin(p) \/ Publish(p)
